@@ -34,15 +34,15 @@ class Case:
 
 
 def col_case(fs, rg, col, mode, ops_txt, tag, verify=1):
-    return Case(kind="col", fs=fs, rg=rg, col=col, mode=mode, ops=ops_txt, tag=tag,
-                line=f"col {mode} {verify} {fs.impl_text()} {rg} {col} {ops_txt}",
-                mline=f"col {mode} {verify} {fs.text()} {rg} {col} {ops_txt}")
+    line = f"col {mode} {verify} {fs.impl_text()} {rg} {col} {ops_txt}"
+    return Case(kind="col", fs=fs, rg=rg, col=col, mode=mode, ops=ops_txt, tag=tag, line=line,
+                mline=line if fs._impl is None else f"col {mode} {verify} {fs.text()} {rg} {col} {ops_txt}")
 
 
 def bat_case(fs, mode, bs, proj, pcols, tag, verify=1):
-    return Case(kind="bat", fs=fs, mode=mode, bs=bs, proj=proj, pcols=pcols, tag=tag,
-                line=f"bat {mode} {verify} {fs.impl_text()} {bs} {proj}",
-                mline=f"bat {mode} {verify} {fs.text()} {bs} {proj}")
+    line = f"bat {mode} {verify} {fs.impl_text()} {bs} {proj}"
+    return Case(kind="bat", fs=fs, mode=mode, bs=bs, proj=proj, pcols=pcols, tag=tag, line=line,
+                mline=line if fs._impl is None else f"bat {mode} {verify} {fs.text()} {bs} {proj}")
 
 
 def one_col_file(typ, nullable, mask, sizes, codec=0):
@@ -79,19 +79,25 @@ def gen_col_cases(tier, rng):
     hcache = {}
     for n in range(1, nmax + 1):
         hcache[n] = rc.histories(n, n + 1)
-        for sizes in rc.compositions(n, 3):
-            variants = [(False, [False] * n)]
+        parts = rc.compositions(n, 3)
+        # 8-row chunks have 111 540 histories each: every history, on a sample of the 29 cuts
+        req_parts = parts if n < 8 else rng.sample(parts, 5)
+        null_parts = parts if n < 8 else rng.sample(parts, 3)
+        for sizes in parts:
+            variants = [(False, [False] * n)] if sizes in req_parts else []
             how = "all" if n <= (5 if thorough else 4) else "edge"
-            variants += [(True, m) for m in masks_for(n, how, rng, sizes)]
+            if sizes in null_parts:
+                variants += [(True, m) for m in masks_for(n, how, rng, sizes)]
+            first_null = next((m for nl, m in variants if nl), None)
             for nullable, mask in variants:
                 fs = one_col_file("i32", nullable, mask, sizes)
                 mode = modes[mi % 3]; mi += 1
                 cases.append(col_case(fs, 0, 0, "f", f"r{n + 1}", "ref"))
                 hs = hcache[n]
-                if n >= 6 and not thorough and nullable and how == "edge" and mask is not variants[1][1]:
-                    hs = rng.sample(hs, len(hs) // 4)
-                if n >= 7 and nullable and mask is not variants[1][1]:
-                    hs = rng.sample(hs, len(hs) // 8)
+                if n >= 6 and nullable and how == "edge" and mask is not first_null:
+                    hs = rng.sample(hs, len(hs) // (4 if n == 6 else 8))
+                elif n >= 7 and nullable:
+                    hs = rng.sample(hs, len(hs) // 2)
                 for h in hs:
                     cases.append(col_case(fs, 0, 0, mode, rc.ops_text(h), "exh"))
     # B. the other physical types
@@ -236,6 +242,26 @@ def gen_bat_cases(tier, rng):
             for proj, pcols in projs:
                 for mode in "fmb":
                     cases.append(bat_case(fs, mode, bs, proj, pcols, "bat"))
+    return cases
+
+
+def corpus_cases(pid="C02"):
+    """minimised witnesses of the findings (corpus/<pid>/*.json): always run first, in all three modes"""
+    cases = []
+    for f in sorted((vlib.VERIF / "corpus" / pid).glob("*.json")):
+        for w in json.loads(f.read_text()):
+            fs = spec_from_text(w["spec"])
+            if w.get("impl_hex"):
+                fs._impl = "x:" + w["impl_hex"]
+            for g in range(len(fs.rgs)):
+                for c in range(len(fs.cols)):
+                    cases.append(col_case(fs, g, c, "f", f"r{len(fs.rows(g, c)) + 1}", "ref"))
+            for r in w["requests"]:
+                for mode in "fmb":
+                    if r[0] == "col":
+                        cases.append(col_case(fs, r[1], r[2], mode, r[3], "corpus"))
+                    else:
+                        cases.append(bat_case(fs, mode, r[1], r[2], proj_cols(fs, r[2]), "corpus"))
     return cases
 
 
@@ -444,7 +470,7 @@ def run(tier):
     except vlib.BuildError as e:
         rep.tie_broken("harness does not build against the current tree: " + str(e)[:500])
         return rep.finish()
-    cases = gen_col_cases(tier, rng) + gen_bat_cases(tier, rng) + gen_pq_cases(tier, rng)
+    cases = corpus_cases() + gen_col_cases(tier, rng) + gen_bat_cases(tier, rng) + gen_pq_cases(tier, rng)
     lines = [c.line for c in cases]
     log(f"C02: {len(lines)} cases")
     impl, deaths = rc.run_resilient(drv, lines, env=ENV)
@@ -569,6 +595,8 @@ def replay(path):
 
 def spec_from_text(text):
     _, codec, defs, rgs = text.split(":", 3)
+    dict_enc = codec.endswith("d")
+    codec = codec.rstrip("d")
     cols = []
     for d in defs.split(","):
         name, typ = d.split("=")
@@ -579,10 +607,11 @@ def spec_from_text(text):
         for ch in rg.split(";"):
             pages = []
             for pg in ch.split("/"):
-                pages.append([None if r == "N" else (b"" if r == "-" else bytes.fromhex(r)) for r in pg.split(".")])
+                pages.append([] if pg == "" else
+                             [None if r == "N" else (b"" if r == "-" else bytes.fromhex(r)) for r in pg.split(".")])
             chunks.append(pages)
         out.append(chunks)
-    fs = FileSpec(int(codec), cols, out)
+    fs = FileSpec(int(codec), cols, out, dict_encoded=dict_enc)
     fs._text = text
     return fs
 
